@@ -29,7 +29,13 @@ LEVEL_TEXT = (
     "node). Without any hypothesis on the environment: ids never reused after deletion, no id completed twice, no data "
     "after completion, P7 (hasNext true on every payload but the last; a payload with hasNext=false stops the scheduler "
     "and nothing follows). StreamItemQueue.batches() delivers an in-order prefix of the queue's items (P6 at the "
-    "queue). Proved fuel bounds for _add_group, _prune_empty_groups, _remove_group. P3b is stated in full and REFUTED "
+    "queue). The executable validator as a whole accepts every EnvOk history: protocol_prefix proves "
+    "checkPrefix false (enclByLabels parents) d (payloads ...) = none for all histories (labels = group numbers, a "
+    "stream's label outside the nesting relation), assembling P1 (incl. the new half: every incremental entry carries "
+    "an id announced by this or an earlier payload, every completed entry such an id or is a failed completion, O1), "
+    "P2, P3a, P4a, P4b, P5 and P7 through an invariant of the validator state; the statement without the stream-label "
+    "hypothesis is refuted (protocol_prefix_full_fails, a label collision, replayed on the real publisher). "
+    "Proved fuel bounds for _add_group, _prune_empty_groups, _remove_group. P3b is stated in full and REFUTED "
     "on the model by the known finding workqueue-prunes-promoted-group-with-undelivered-shared-task "
     "(p3b_defer_full_fails). The model is tied to the code by replaying scripted histories on the real "
     "WorkQueue/IncrementalPublisher/StreamItemQueue (event batches and payloads compared exactly); the Lean validator "
@@ -40,8 +46,9 @@ LEVEL_NOTE = (
     "correspondence only; asyncio scheduling is abstracted to 'one batch per quiescent point + deferred callbacks', "
     "validated on a harness-owned event loop; consumer pull timing, cancellation delivery and GC are outside the "
     "model (covered only by the end-to-end oracle). The clauses are proved as separate predicates on the payload "
-    "stream; that the decision procedure `check` as a whole accepts every EnvOk prefix (protocol_prefix_full) is still a "
-    "`def`, `check` being run on every explored stream instead. drain's fuel (events per batch) is a parameter of every "
+    "stream and assembled into acceptance by the data-free validator (`checkPrefix false`, theorem protocol_prefix); "
+    "the data-dependent clauses it skips (P3b, refuted by the known finding; the data-level half of P6) are decided by "
+    "`check true` on every explored stream instead. drain's fuel (events per batch) is a parameter of every "
     "theorem. EnvOk is observed on what the real executor feeds the queue in every explored end-to-end run."
 )
 TECHNIQUE = "Lean 4 trace invariants over an executable scheduler model + differential replay + spec validator oracle"
